@@ -1001,6 +1001,16 @@ func runCase(ctx context.Context, out *vc.Out, caseID int, seed uint64, tier str
 			}
 			_, err := tcol.CreateIndex(ctx, client.IndexCreateRequest{Name: fmt.Sprintf("ix%d", i), Fields: fs, Unique: s.unique})
 			must(err)
+			var fd []string
+			for _, k := range s.fields {
+				d := "a"
+				if k.desc {
+					d = "d"
+				}
+				fd = append(fd, k.f+":"+d)
+			}
+			// the model builds (or starts maintaining) this index from here on
+			out.Emit("idx "+strings.Join(fd, ","), "ok")
 		}
 	}
 	before := withTwin && r.Bool()
